@@ -373,3 +373,12 @@ func lemmaTickMonotone(intervalStart uint64, intervalsPerDay uint32, t1, t2 uint
 //@ option abstract channel
 //@ loop 0 invariant true
 //@ exit #shutdownOrder: old(clock) < flushAt && flushAt < ckptAt && ckptAt < doneAt
+
+// C07: a writer returns from RequestFlush only after a flush that started after the call has completed: either it ran
+// FlushToWAL itself, or it queued a request and received the acknowledgement that SyncWAL sends after its FlushToWAL.
+// handshakes counts the acknowledgements received (the channel semantics themselves are not modelled).
+//@ func (*WALFileType).RequestFlush
+//@ props C07
+//@ option noimplicit
+//@ option abstract channel
+//@ exit #flushedOrAcked: flushAt > old(clock) || recvCount > old(recvCount)
